@@ -284,27 +284,11 @@ Proof.
   rewrite pathmatch_spec_iter_b_iff. apply spec_iter_canon. exact Hc.
 Qed.
 
-(* reads_canon_b cannot be dropped: the iterator reads "a//b" as "ab", so the
-   pattern "a/b" (fast_ok) does not match the path "a//b" *)
-Theorem pathmatch_canon_refuted :
-  exists pattern path,
-    fast_ok pattern [] = true /\
-    pathmatch_model pattern path [] false = Some false /\
-    pathmatch_spec pattern path [] false.
-Proof.
-  exists [97; SL; 98], [97; SL; SL; 98]. split; [reflexivity|].
-  split; [vm_compute; reflexivity|].
-  apply pathmatch_spec_b_iff. vm_compute. reflexivity.
-Qed.
-
-(* the iterator itself against the documented canonical form *)
-Theorem iter_canon_refuted :
-  (exists a, iter_read a [] <> canon (join_raw a [])) /\
-  iter_read [97; SL; SL; 98] [] = [97; 98] /\          (* "a//b" is read as "ab" *)
-  iter_read [SL; DOT; DOT; SL; 97] [] = [97] /\        (* "/../a" is read as "a" *)
-  canon [97; SL; SL; 98] = [97; SL; 98] /\
-  canon [SL; DOT; DOT; SL; 97] = [SL; 97].
-Proof.
-  split; [exists [97; SL; SL; 98]; vm_compute; discriminate|].
-  vm_compute. repeat split; reflexivity.
-Qed.
+(* the two inputs on which the iterator deviated before fix 5cbe6ed *)
+Lemma iter_fixed_witnesses :
+  iter_read [97; SL; SL; 98] [] = canon [97; SL; SL; 98] /\          (* "a//b" -> "a/b" *)
+  iter_read [SL; DOT; DOT; SL; 97] [] = canon [SL; DOT; DOT; SL; 97] /\   (* "/../a" -> "/a" *)
+  iter_read [SL; SL; 97] [] = [SL; 97] /\ iter_read [SL; DOT; DOT] [] = [SL] /\
+  pathmatch_model [97; SL; 98] [97; SL; SL; 98] [] false = Some true /\
+  reads_canon_b [97; SL; 98] [97; SL; SL; 98] [] = true.
+Proof. vm_compute. repeat split; reflexivity. Qed.
